@@ -109,7 +109,7 @@
    ======================================================================== *)
 Require Import Model.Base Model.Slots Model.MapOps Model.EntryOps Model.Exec.
 Require Import Proofs.Hoare Proofs.Inv Proofs.Spec Proofs.Lawful Proofs.EntrySpec
-               Proofs.FmtSerde Proofs.Legacy Proofs.Gaps.
+               Proofs.FmtSerde Proofs.Legacy Proofs.Gaps Proofs.PureEq.
 
 Theorem C11_entry_of_lawful :
   forall (K V Q T : Type) (E : env K V Q T) (ck : K -> N) (cq : Q -> N) (HL : Lawful E ck cq)
@@ -2229,3 +2229,111 @@ Example C11_example_reachable :
   | None => False
   end.
 Proof. vm_compute. repeat split; reflexivity. Qed.
+
+(* ------------------------------------------------------------------------
+   OPERAND-DETERMINED == THAT IS NO EQUIVALENCE (Proofs/PureEq.v).
+   [Related E ck cq R]: the user's == answers an arbitrary relation R on the
+   classes of its operands, stored key on the LEFT, supplied key / borrowed
+   needle on the RIGHT (the order every scan of the crate uses); R need be
+   neither reflexive nor symmetric nor transitive.  [find_rel ck R c l] is the
+   first stored key k with R (ck k) c.  "entry(k) is Occupied exactly when k is
+   present" then still holds in the only sense available: entry and the direct
+   lookups find the SAME slot, because they put the operands the same way
+   round.  (A change that swaps the operands in one of them breaks exactly
+   these theorems; the interpreter's fifth kind of misbehaving ==, a <= on
+   classes, makes that observable in the correspondence.)
+   ------------------------------------------------------------------------ *)
+Theorem C11_entry_of_any_relation :
+  forall (K V Q T : Type) (E : env K V Q T) (ck : K -> N) (cq : Q -> N) (R : N -> N -> bool)
+         (HR : Related E ck cq R) (k : K) (w : world K V T),
+    WF (self w) ->
+    wp (entry_of E k)
+       (fun (e : @entry K) (w' : world K V T) =>
+          self w' = self w /\
+          match find_rel ck R (ck k) (Spec.elems (self w)) with
+          | Some i => e = Occupied i /\ logged w w' (ev_drops (idK E k))
+          | None => e = Vacant k /\ log w' = log w
+          end)
+       (fun _ : world K V T => False) w.
+Proof. exact (fun K V Q T E ck cq R HR => entry_of_rel E ck cq R HR). Qed.
+Print Assumptions C11_entry_of_any_relation.
+
+Theorem C11_get_any_relation :
+  forall (K V Q T : Type) (E : env K V Q T) (ck : K -> N) (cq : Q -> N) (R : N -> N -> bool)
+         (HR : Related E ck cq R) (q : Q) (w : world K V T),
+    WF (self w) ->
+    wp (get E q)
+       (fun (r : option nat) (w' : world K V T) =>
+          stable w w' /\ r = find_rel ck R (cq q) (Spec.elems (self w)))
+       (fun _ : world K V T => False) w.
+Proof. exact (fun K V Q T E ck cq R HR => get_rel E ck cq R HR). Qed.
+Print Assumptions C11_get_any_relation.
+
+Theorem C11_entry_get_agree_any_relation :
+  forall (K V Q T : Type) (E : env K V Q T) (ck : K -> N) (cq : Q -> N) (R : N -> N -> bool)
+         (HR : Related E ck cq R) (k : K) (q : Q) (w : world K V T),
+    ck k = cq q -> WF (self w) ->
+    wp (entry_of E k)
+       (fun (r : @entry K) (_ : world K V T) =>
+          wp (get E q)
+             (fun (g : option nat) (_ : world K V T) =>
+                match r with Occupied i => g = Some i | Vacant _ => g = None end)
+             (fun _ : world K V T => False) w)
+       (fun _ : world K V T => False) w.
+Proof. exact (fun K V Q T E ck cq R HR => entry_get_agree_rel E ck cq R HR). Qed.
+Print Assumptions C11_entry_get_agree_any_relation.
+
+Theorem C11_entry_contains_agree_any_relation :
+  forall (K V Q T : Type) (E : env K V Q T) (ck : K -> N) (cq : Q -> N) (R : N -> N -> bool)
+         (HR : Related E ck cq R) (k : K) (q : Q) (w : world K V T),
+    ck k = cq q -> WF (self w) ->
+    wp (entry_of E k)
+       (fun (r : @entry K) (_ : world K V T) =>
+          wp (contains_key E q)
+             (fun (g : bool) (_ : world K V T) =>
+                match r with Occupied _ => g = true | Vacant _ => g = false end)
+             (fun _ : world K V T => False) w)
+       (fun _ : world K V T => False) w.
+Proof. exact (fun K V Q T E ck cq R HR => entry_contains_agree_rel E ck cq R HR). Qed.
+Print Assumptions C11_entry_contains_agree_any_relation.
+
+(* ... and for the lookup made AFTER entry(k) returned, in the world it left *)
+Theorem C11_entry_then_get_agree_any_relation :
+  forall (K V Q T : Type) (E : env K V Q T) (ck : K -> N) (cq : Q -> N) (R : N -> N -> bool)
+         (HR : Related E ck cq R) (k : K) (q : Q) (w : world K V T),
+    ck k = cq q -> WF (self w) ->
+    wp (e <- entry_of E k ;; g <- get E q ;; ret (e, g))
+       (fun (r : @entry K * option nat) (_ : world K V T) =>
+          match fst r with Occupied i => snd r = Some i | Vacant _ => snd r = None end)
+       (fun _ : world K V T => False) w.
+Proof. exact (fun K V Q T E ck cq R HR => entry_then_get_agree_rel E ck cq R HR). Qed.
+Print Assumptions C11_entry_then_get_agree_any_relation.
+
+(* the hypothesis is met by the interpreter's environment under a script of the fifth kind
+   (adversarial, seed mod 5 = 3, no injected fault) with R = "<=" on classes ... *)
+Theorem C11_env_map_related :
+  forall sc : script, asym sc = true -> sc_fk sc = 0%N -> Related (env_map sc) kcls qcls N.leb.
+Proof. exact env_map_related. Qed.
+Print Assumptions C11_env_map_related.
+
+Theorem C11_entry_get_agree_asym :
+  forall (sc : script) (k : key) (q : query) (w : world key vobj cstate),
+    asym sc = true -> sc_fk sc = 0%N -> kcls k = qcls q -> WF (self w) ->
+    wp (entry_of (env_map sc) k)
+       (fun (r : @entry key) (_ : world key vobj cstate) =>
+          wp (get (env_map sc) q)
+             (fun (g : option nat) (_ : world key vobj cstate) =>
+                match r with Occupied i => g = Some i | Vacant _ => g = None end)
+             (fun _ : world key vobj cstate => False) w)
+       (fun _ : world key vobj cstate => False) w.
+Proof. exact entry_get_agree_asym. Qed.
+Print Assumptions C11_entry_get_agree_asym.
+
+(* ... such scripts exist, and under "<=" the side on which the stored key stands decides the slot:
+   stored classes [5; 2], needle class 3 *)
+Theorem C11_example_operand_order_matters :
+  (let sc := {| sc_adv := true; sc_seed := 3; sc_fk := 0; sc_fa := 0 |} in asym sc = true /\ sc_fk sc = 0%N) /\
+  find_rel (fun n : N => n) N.leb 3%N [(5%N, tt); (2%N, tt)] = Some 1 /\
+  find_rel (fun n : N => n) (fun a b => N.leb b a) 3%N [(5%N, tt); (2%N, tt)] = Some 0.
+Proof. exact (conj asym_script_exists (conj find_rel_leb_stored_left find_rel_leb_stored_right)). Qed.
+Print Assumptions C11_example_operand_order_matters.
